@@ -4,7 +4,6 @@ import (
 	"bytes"
 	"errors"
 	"fmt"
-	"io"
 	"os"
 	"os/exec"
 	"path/filepath"
@@ -285,29 +284,22 @@ func RunCommand(cmdArgs []string, runDir string) (map[string]interface{}, error)
 		cmd.Dir = runDir
 	}
 
-	stderrPipe, err := cmd.StderrPipe()
-	if err != nil {
-		return nil, err
-	}
-	stdoutPipe, err := cmd.StdoutPipe()
-	if err != nil {
-		return nil, err
-	}
+	// Both streams are drained concurrently by os/exec, so the command can
+	// never block on a full pipe, however much it writes to either stream.
+	var stdout, stderr bytes.Buffer
+	cmd.Stdout = &stdout
+	cmd.Stderr = &stderr
 
 	if err := cmd.Start(); err != nil {
 		return nil, err
 	}
 
-	// TODO: duplicate stdout, stderr
-	stdout, _ := io.ReadAll(stdoutPipe)
-	stderr, _ := io.ReadAll(stderrPipe)
-
 	retVal := waitErrToExitCode(cmd.Wait())
 
 	return map[string]interface{}{
 		"return-value": float64(retVal),
-		"stdout":       string(stdout),
-		"stderr":       string(stderr),
+		"stdout":       stdout.String(),
+		"stderr":       stderr.String(),
 	}, nil
 }
 
